@@ -4,7 +4,7 @@
 # On success copies it to /verif/seeded/<PROP>-<mN>/ (patch.diff, demo, meta.json + verify.log).
 set -u
 P=$1; M=$2
-SRC=/tmp/mut/$P/out/$M
+SRC=${MUTBASE:-/tmp/mut}/$P/out/$M
 WT=/tmp/sv/$P-$M
 export GOFLAGS=-mod=mod GOPROXY=off
 rm -rf $WT; git -C /repo worktree prune; git -C /repo worktree add -q --detach $WT HEAD || exit 2
